@@ -142,13 +142,15 @@ func (r *Recorder) ClosePath() {
 	r.penX, r.penY = r.startX, r.startY
 }
 func (r *Recorder) Draw(rect image.Rectangle, src image.Image, sp image.Point) {
-	r.add(Call{K: Draw, R: rect, SP: sp, P: snapshot(src, !r.NoLattice, r.Points)})
+	r.add(Call{K: Draw, R: rect, SP: sp, P: snapshot(src, !r.NoLattice, r.Points, sp)})
 }
 
 // Snapshot copies what matters of a paint.
-func Snapshot(src image.Image, lattice bool) *Paint { return snapshot(src, lattice, nil) }
+func Snapshot(src image.Image, lattice bool) *Paint { return snapshot(src, lattice, nil, image.Point{}) }
 
-func snapshot(src image.Image, lattice bool, points []image.Point) *Paint {
+// The sample points are pixels of the drawn rectangle, relative to its corner: the pixel (x,y) of
+// the rectangle shows the paint at sp+(x,y), sp being the source point given to Draw.
+func snapshot(src image.Image, lattice bool, points []image.Point, sp image.Point) *Paint {
 	if points == nil {
 		points = LatticePoints
 	}
@@ -171,7 +173,7 @@ func snapshot(src image.Image, lattice bool, points []image.Point) *Paint {
 		p.Transform = [6]float64{a, b, c, d, e, f}
 		if lattice {
 			for _, pt := range points {
-				rr, gg, bb, aa := src.At(pt.X, pt.Y).RGBA()
+				rr, gg, bb, aa := src.At(pt.X+sp.X, pt.Y+sp.Y).RGBA()
 				p.Lattice = append(p.Lattice, color.RGBA64{uint16(rr), uint16(gg), uint16(bb), uint16(aa)})
 			}
 		}
